@@ -4,7 +4,7 @@ import z3
 from vf.pyvc.lib import REG
 from vf.pyvc import timelib  # noqa
 from vf import tables as T, objgen as G
-from contracts import cleaners as K, lexical as KL, parsing as KP
+from contracts import cleaners as K, lexical as KL, parsing as KP, markings as KM
 from props import _objects as O
 from props.C02 import lexical_part
 from props.C15 import text_to_us
@@ -50,6 +50,7 @@ def run(chk):
     chk.trust('the generator is only as complete as spec/tables_* and the seeds in vf/objgen.py', 'spec/accepted_variants.json (frozen list of generator variants the library accepted when the model was frozen)')
     lexical_part(chk, 'C03')
     cs = [K.validate_type_contract(), K.integer_clean_contract(), KP.dict_to_stix2_contract()] + [K.order_contract(*row) for row in K.ORDER_TABLE]
+    cs += [KM.validate_contract(), KM.validate_selector_contract(), KM.evaluate_expression_contract()]        # granular markings on every existing path are accepted
     for c in cs:
         chk.prove(c); chk.canary(c)
     alts = (0, 1, 2)
